@@ -76,7 +76,7 @@ def norm(p):
 
 def run(tier, seed, broken_proof=False):
     rng = random.Random(seed)
-    count = 300 if tier == "quick" else 3000
+    count = 600 if tier == "quick" else 4000
     cases = gen_cases(rng, count)
     mres = common.run_model(cases)
     # diagnostics cases for a third of the cases; refusal for inconsistent/empty ones (bounded)
